@@ -1,6 +1,7 @@
 package main
 
 import (
+	"encoding/json"
 	"fmt"
 	"go/token"
 	"go/types"
@@ -40,6 +41,61 @@ type Engine struct {
 	constGlob map[*ssa.Global]*constGlobalInfo
 	cgScanned map[*ssa.Package]bool
 	ghost     *Ghost
+	blNames   map[string]*fnNames
+}
+
+type nameT struct {
+	Name string `json:"name"`
+	Type string `json:"type"`
+}
+
+type fnNames struct {
+	Loops  map[string][]nameT `json:"loops"`
+	Allocs []nameT            `json:"allocs"`
+}
+
+func (e *Engine) baselineNames() map[string]*fnNames {
+	if e.blNames != nil {
+		return e.blNames
+	}
+	e.blNames = map[string]*fnNames{}
+	data, err := os.ReadFile(filepath.Join(verifRoot, "baseline", "names.json"))
+	if err == nil {
+		json.Unmarshal(data, &e.blNames)
+	}
+	return e.blNames
+}
+
+// collectNames computes the baseline entry of one function from its current SSA.
+func (e *Engine) collectNames(fn *ssa.Function) *fnNames {
+	out := &fnNames{Loops: map[string][]nameT{}}
+	var headers []*ssa.BasicBlock
+	for _, b := range fn.Blocks {
+		for _, p := range b.Preds {
+			if isBackEdge(p, b) {
+				headers = append(headers, b)
+				break
+			}
+		}
+	}
+	sort.Slice(headers, func(i, j int) bool { return headers[i].Index < headers[j].Index })
+	for i, h := range headers {
+		var ns []nameT
+		for _, ins := range h.Instrs {
+			if p, ok := ins.(*ssa.Phi); ok {
+				ns = append(ns, nameT{p.Comment, shortTypeName(p.Type())})
+			}
+		}
+		out.Loops[fmt.Sprint(i)] = ns
+	}
+	for _, b := range fn.Blocks {
+		for _, ins := range b.Instrs {
+			if a, ok := ins.(*ssa.Alloc); ok && a.Comment != "" {
+				out.Allocs = append(out.Allocs, nameT{a.Comment, shortTypeName(a.Type())})
+			}
+		}
+	}
+	return out
 }
 
 type constGlobalInfo struct {
